@@ -357,6 +357,7 @@ package redis
 //@ ensures {C05} err == nil ==> (forall k int :: 0 <= k && k < len(result0) ==> old(strArg(args, k)) && result0[k] == old(argS(args, k))) && !old(hasArg(args, len(result0)))
 //@ ensures {C10} err != nil ==> result0 == nil
 //@ ensures old(args.index) <= args.index
+//@ ensures {C05} old(allStrFrom(args, 0)) ==> err == nil && len(result0) == len(args.msgs) - old(args.index)
 
 //@ func nextMGetArguments
 //@ requires args != nil
@@ -364,10 +365,15 @@ package redis
 //@ ensures {C05} err == nil ==> (forall k int :: 0 <= k && k < len(result0) ==> old(strArg(args, k)) && result0[k] == old(argS(args, k))) && !old(hasArg(args, len(result0)))
 //@ ensures {C10} err != nil ==> result0 == nil
 //@ ensures old(args.index) <= args.index
+//@ ensures {C05} old(allStrFrom(args, 0)) ==> err == nil && len(result0) == len(args.msgs) - old(args.index)
+
+// allStrFrom(a, k0): every remaining argument from position k0 after the cursor is a (non-null) string
+//@ spec func allStrFrom(a ref, k0 int) bool = forall j int :: a.index + k0 <= j && j < len(a.msgs) ==> a.msgs[j] != nil && isStr(a.msgs[j].Type) && a.msgs[j].bytes != nil
 
 //@ func nextStringArrayArguments
 //@ requires args != nil
 //@ assigns args.index
+//@ ensures {C05} old(allStrFrom(args, 0)) ==> err == nil && len(result0) == len(args.msgs) - old(args.index)
 //@ ensures {C05} err == nil ==> (forall k int :: 0 <= k && k < len(result0) ==> old(strArg(args, k)) && result0[k] == old(argS(args, k))) && !old(hasArg(args, len(result0)))
 //@ ensures {C10} err != nil ==> result0 == nil
 //@ ensures old(args.index) <= args.index
@@ -379,6 +385,7 @@ package redis
 //@   invariant err == proto.ErrEOM ==> (old(args.index) + len(strs) >= len(args.msgs) || args.msgs[old(args.index) + len(strs)] == nil)
 //@   invariant err != nil && err != proto.ErrEOM ==> !errors.Is(err, proto.ErrEOM)
 //@   invariant forall k int :: 0 <= k && k < len(strs) ==> old(strArg(args, k)) && strs[k] == old(argS(args, k))
+//@   invariant {C05} old(allStrFrom(args, 0)) ==> err == nil || (err == proto.ErrEOM && old(args.index) + len(strs) >= len(args.msgs))
 //@   decreases len(args.msgs) - args.index + (err == nil ? 1 : 0)
 
 //@ func nextStringMapArguments
@@ -443,6 +450,7 @@ package redis
 //@ ensures {C05,C10} err == nil ==> old(strArg(args, 0)) && result0 == old(argS(args, 0))
 //@ ensures {C05} err == nil ==> (forall k int :: 0 <= k && k < len(result1) ==> old(strArg(args, k + 1)) && result1[k] == old(argS(args, k + 1))) && !old(hasArg(args, len(result1) + 1))
 //@ ensures old(args.index) <= args.index
+//@ ensures {C05} old(strArg(args, 0)) && old(allStrFrom(args, 1)) ==> err == nil && len(result1) == len(args.msgs) - old(args.index) - 1
 
 //@ func nextPopArguments
 //@ requires args != nil
@@ -466,6 +474,12 @@ package redis
 //@ requires args != nil
 //@ assigns args.index
 //@ ensures {C05} err == nil ==> result0.Time == ttl
+//@ ensures {C05} !old(hasArg(args, 0)) ==> err == nil && !result0.NX && !result0.XX && !result0.GT && !result0.LT
+//@ ensures {C05} old(strArg(args, 0)) && toUpper(old(argS(args, 0))) == "NX" ==> err == nil && result0.NX && !result0.XX && !result0.GT && !result0.LT
+//@ ensures {C05} old(strArg(args, 0)) && toUpper(old(argS(args, 0))) == "XX" ==> err == nil && !result0.NX && result0.XX && !result0.GT && !result0.LT
+//@ ensures {C05} old(strArg(args, 0)) && toUpper(old(argS(args, 0))) == "GT" ==> err == nil && !result0.NX && !result0.XX && result0.GT && !result0.LT
+//@ ensures {C05} old(strArg(args, 0)) && toUpper(old(argS(args, 0))) == "LT" ==> err == nil && !result0.NX && !result0.XX && !result0.GT && result0.LT
+//@ ensures {C10} old(strArg(args, 0)) && toUpper(old(argS(args, 0))) != "NX" && toUpper(old(argS(args, 0))) != "XX" && toUpper(old(argS(args, 0))) != "GT" && toUpper(old(argS(args, 0))) != "LT" ==> err != nil
 //@ ensures old(args.index) <= args.index && args.index <= old(args.index) + 1
 
 //@ func nextScanArgument
@@ -473,6 +487,7 @@ package redis
 //@ assigns args.index
 //@ ensures {C17} err == nil ==> result0.MatchPattern != nil && isGlob(result0.MatchPattern)
 //@ ensures {C17} err == nil && !old(hasArg(args, 0)) ==> glob_of[result0.MatchPattern] == "*"
+//@ ensures {C05} !old(hasArg(args, 0)) ==> err == nil
 //@ ensures {C17} err == nil && old(len(args.msgs) == args.index + 2 && strArg(args, 0) && toUpper(argS(args, 0)) == "MATCH") ==> glob_of[result0.MatchPattern] == old(argS(args, 1))
 //@ ensures old(args.index) <= args.index
 //@ loop 0
@@ -481,7 +496,7 @@ package redis
 //@   invariant {C17} err == nil ==> args.index >= old(args.index) + 1 && param == string(args.msgs[args.index - 1].bytes)
 //@   invariant {C17} args.index <= old(args.index) + 1 ==> glob_of[opt.MatchPattern] == "*"
 //@   invariant {C17} old(strArg(args, 0)) ==> args.index >= old(args.index) + 1
-//@   invariant {C17} !old(hasArg(args, 0)) ==> err != nil && args.index <= old(args.index) + 1
+//@   invariant {C17} !old(hasArg(args, 0)) ==> err == proto.ErrEOM && args.index <= old(args.index) + 1
 //@   invariant {C17} old(strArg(args, 0) && toUpper(argS(args, 0)) == "MATCH") && args.index == old(args.index) + 1 ==> err == nil
 //@   invariant {C17} old(len(args.msgs) == args.index + 2 && strArg(args, 0) && toUpper(argS(args, 0)) == "MATCH") && args.index == old(args.index) + 2 ==> glob_of[opt.MatchPattern] == old(argS(args, 1))
 //@   decreases len(args.msgs) - args.index + (err == nil ? 1 : 0)
@@ -707,6 +722,7 @@ package redis
 //@ ensures {C05} H_calls == old(H_calls) + 1 ==> H_m[old(H_calls)] == "Expire" && H_conn[old(H_calls)] == conn && H_Expire_key[old(H_calls)] == old(argS(args, 0)) && result0 == H_res[old(H_calls)] && err == H_err[old(H_calls)]
 //@ ensures {C05,C10} H_calls == old(H_calls) || H_calls == old(H_calls) + 1
 //@ ensures {C10} !old(strArg(args, 0)) || !old(intArg(args, 1)) || old(argI(args, 1)) > 9223372036 || old(argI(args, 1)) < -9223372036 ==> err != nil && H_calls == old(H_calls)
+//@ ensures {C05} old(strArg(args, 0)) && old(intArg(args, 1)) && -9223372036 <= old(argI(args, 1)) && old(argI(args, 1)) <= 9223372036 && !old(hasArg(args, 2)) ==> H_calls == old(H_calls) + 1
 
 //@ executor "SET"
 //@ ensures {C05} H_calls == old(H_calls) + 1 ==> H_m[old(H_calls)] == "Set" && H_conn[old(H_calls)] == conn && H_Set_key[old(H_calls)] == old(argS(args, 0)) && H_Set_val[old(H_calls)] == old(argS(args, 1)) && result0 == H_res[old(H_calls)] && err == H_err[old(H_calls)]
@@ -732,6 +748,7 @@ package redis
 //@ ensures {C17} H_calls == old(H_calls) + 1 && old(len(args.msgs) == args.index + 3 && strArg(args, 1) && toUpper(argS(args, 1)) == "MATCH") ==> glob_of[H_Scan_opt_MatchPattern[old(H_calls)]] == old(argS(args, 2))
 //@ ensures {C05,C10} H_calls == old(H_calls) || H_calls == old(H_calls) + 1
 //@ ensures {C10} !old(intArg(args, 0)) ==> err != nil && H_calls == old(H_calls)
+//@ ensures {C05} old(intArg(args, 0)) && !old(hasArg(args, 1)) ==> H_calls == old(H_calls) + 1
 
 //@ executor "AUTH"
 //@ ensures {C10} !old(strArg(args, 0)) ==> err != nil && conn.authrized == old(conn.authrized)
@@ -764,6 +781,9 @@ package redis
 //@ ensures {C12} err == nil && msgStrOK(H_res[old(H_calls)]) ==> H_Set_val[old(H_calls) + 1] == string(H_res[old(H_calls)].bytes) + old(argS(args, 1)) && intReply(result0, len(H_res[old(H_calls)].bytes) + len(old(argS(args, 1))))
 //@ ensures {C12} err == nil && !msgStrOK(H_res[old(H_calls)]) ==> H_Set_val[old(H_calls) + 1] == old(argS(args, 1)) && intReply(result0, len(old(argS(args, 1))))
 //@ ensures {C10} !old(strArg(args, 0)) || !old(strArg(args, 1)) ==> err != nil && H_calls == old(H_calls)
+//@ ensures {C12} old(strArg(args, 0)) && old(strArg(args, 1)) ==> H_calls >= old(H_calls) + 1
+//@ ensures {C12} old(strArg(args, 0)) && old(strArg(args, 1)) && H_err[old(H_calls)] == nil ==> H_calls == old(H_calls) + 2
+//@ ensures {C12} H_calls == old(H_calls) + 2 ==> (err == nil <==> H_err[old(H_calls) + 1] == nil)
 
 //@ executor "STRLEN"
 //@ ensures {C12} err == nil && result0 != nil && result0.Type == proto.IntegerMessage
